@@ -107,9 +107,11 @@ fn struct_source(s: &StructDef) -> String {
     let flags = if s.has_stack { "builder" } else { "builder, !has_stack" };
     let _ = writeln!(o, "#[derive(Default, Debug, Clone, PartialEq)] #[push_state({flags})] pub struct {} {{", s.name);
     let _ = writeln!(o, "    #[stack(exec)] pub code: Stack<u16>,");
-    for st in &s.stacks {
+    for (k, st) in s.stacks.iter().enumerate() {
         let attr = if st.renamed { format!("#[stack(builder_name = {})]", st.method) } else { "#[stack]".to_string() };
-        let _ = writeln!(o, "    {attr} pub {}: Stack<{}>,", st.field, TYPES[st.ty].rust);
+        // the stack type is spelled the way users spell it: imported, or with its (absolute) path
+        let spelled = ["Stack", "push::push_vm::stack::Stack", "Stack", "::push::push_vm::stack::Stack"][(s.name.len() + k) % 4];
+        let _ = writeln!(o, "    {attr} pub {}: {spelled}<{}>,", st.field, TYPES[st.ty].rust);
     }
     let _ = writeln!(o, "    #[instruction_step_limit] pub steps: usize,");
     let _ = writeln!(o, "}}");
